@@ -25,6 +25,16 @@ struct Ctx {
     h: u64,
     calls: u64,
     reports: u64,
+    dbg: u64,
+    top: usize,
+}
+
+struct Sink(usize);
+impl core::fmt::Write for Sink {
+    fn write_str(&mut self, s: &str) -> core::fmt::Result {
+        self.0 += s.len();
+        Ok(())
+    }
 }
 
 fn cc(c: u8, n: u8, v: u8) -> RawShortMessage {
@@ -64,6 +74,14 @@ fn dfs(sc: &PollingParameterNumberMessageScanner, depth: usize, ctx: &mut Ctx, m
         };
         ctx.calls += 1;
         ctx.h = mix(ctx.h, (a as u64) << 56 ^ code);
+        if depth + 3 > ctx.top {
+            // (the three levels next to the root: every state reachable by up to three actions)
+            // Debug of a scanner with a sequence in progress must not allocate (the callers count);
+            // the text itself is not part of the transcript (it contains clock readings)
+            let mut sink = Sink(0);
+            let _ = core::fmt::Write::write_fmt(&mut sink, format_args!("{:?}{:#?}", s, s));
+            ctx.dbg += sink.0 as u64;
+        }
         dfs(&s, depth - 1, ctx, msgs);
     }
 }
@@ -83,7 +101,7 @@ pub fn msgs() -> Vec<RawShortMessage> {
 
 /// Allocation-free: depth-first search over `Copy` scanner values.
 pub fn run(msgs: &[RawShortMessage], depth: usize) -> (u64, u64, u64) {
-    let mut ctx = Ctx { h: 0xcbf29ce484222325, calls: 0, reports: 0 };
+    let mut ctx = Ctx { h: 0xcbf29ce484222325, calls: 0, reports: 0, dbg: 0, top: depth };
     for t in [Duration::ZERO, Duration::MAX] {
         let sc = PollingParameterNumberMessageScanner::new(t);
         ctx.h = mix(ctx.h, 0xABCD);
